@@ -262,8 +262,14 @@ func (e *c08Explorer) runConfig(base vcrash.FS, ingest []int, skipSort, keepMeta
 	// (2) single faults
 	kinds := []string{"write", "sync", "rename", "create", "seek", "remove"}
 	for _, kind := range kinds {
-		for k := 1; k <= ff.Counts[kind]; k++ {
-			spec := fmt.Sprintf("%s:%d", kind, k)
+		// a failing write comes in three flavours: a plain I/O error, "no space left" with nothing written, and
+		// "no space left" after the first half of the buffer went to the file (the next attempt succeeds in all three)
+		modes := []string{""}
+		if kind == "write" {
+			modes = []string{"", ":enospc", ":enospc-torn"}
+		}
+		for k := 1; k <= ff.Counts[kind]*len(modes); k++ {
+			spec := fmt.Sprintf("%s:%d%s", kind, (k-1)/len(modes)+1, modes[(k-1)%len(modes)])
 			if only != nil && (only.Crash || only.Fail != spec) {
 				continue
 			}
